@@ -53,7 +53,7 @@ for b in blocks:
         'files': meta.get('files'),
         'origin': 'written by an independent sub-agent that saw only the '
                   'property text and a scratch worktree of /repo (round %d)'
-                  % ((int(k) - 1) // 3 + 1),
+                  % int(os.environ.get('ROUND', (int(k) - 1) // 3 + 1)),
         'confirmed': {
             'repo_tests_with_change': tests.group(1),
             'demo_exit_with_change': int(dw.group(1)),
